@@ -1020,9 +1020,21 @@ impl<'a> GeneratorState<'a> {
                 }
             }
         };
-        self.asm(JMP, &ExprType::Label(cont_label), pos, false)?;
-        self.loops.last_mut().unwrap().2 = true;
+        self.asm(JMP, &ExprType::Label(cont_label.clone()), pos, false)?;
+        self.mark_continue_used(&cont_label);
         Ok(())
+    }
+
+    /// A switch pushes its own entry that repeats the continue label of the enclosing loop:
+    /// the loop itself must learn that its continue label is used
+    pub(crate) fn mark_continue_used(&mut self, cont_label: &str) {
+        for l in self.loops.iter_mut().rev() {
+            if l.0 == cont_label {
+                l.2 = true;
+            } else {
+                break;
+            }
+        }
     }
 
     pub fn generate_return(&mut self, expr: &Expr, pos: usize) -> Result<(), Error> {
